@@ -156,6 +156,26 @@ def gen_opt_config(rng, name, space):
         cfg["n_iter_restart"] = rng.choice([1, 2, 5])
     if name == "GridSearchOptimizer":
         cfg["direction"] = rng.choice(["diagonal", "orthogonal"])
+    # algorithm-specific hyper-parameters, beyond their usual ranges too (the properties quantify over all settings)
+    extra = {
+        "ParticleSwarmOptimizer": dict(inertia=[0.5, 0.9, 1.5], cognitive_weight=[0.5, 1.5, 3.0], social_weight=[0.5, 1.5, 3.0], temp_weight=[0.2, 1.0]),
+        "SpiralOptimization": dict(decay_rate=[0.99, 0.9, 1.1, 0.5]),
+        "GeneticAlgorithmOptimizer": dict(mutation_rate=[0.0, 0.5, 1.0], crossover_rate=[0.0, 0.5, 1.0], offspring=[1, 5, 10], n_parents=[2]),
+        "EvolutionStrategyOptimizer": dict(mutation_rate=[0.0, 0.7, 1.0], crossover_rate=[0.0, 0.3, 1.0], offspring=[1, 20], replace_parents=[False, True]),
+        "DifferentialEvolutionOptimizer": dict(mutation_rate=[0.3, 0.9, 2.0], crossover_rate=[0.1, 0.5, 0.9]),
+        "ParallelTemperingOptimizer": dict(n_iter_swap=[1, 2, 5, 0]),
+        "DownhillSimplexOptimizer": dict(alpha=[1, 2.5], gamma=[2, 4], beta=[0.5, 0.9], sigma=[0.5, 0.1]),
+        "PatternSearch": dict(n_positions=[1, 2, 4, 8], pattern_size=[0.25, 0.9, 2.0], reduction=[0.9, 0.5]),
+        "PowellsMethod": dict(iters_p_dim=[1, 3, 10]),
+        "SimulatedAnnealingOptimizer": dict(annealing_rate=[0.97, 0.5], start_temp=[1, 100, 0.01]),
+        "StochasticHillClimbingOptimizer": dict(p_accept=[0.5, 0.0, 1.0]),
+        "RepulsingHillClimbingOptimizer": dict(repulsion_factor=[5, 1, 50]),
+        "RandomAnnealingOptimizer": dict(annealing_rate=[0.98, 0.5], start_temp=[10, 1000, 0.1]),
+        "GridSearchOptimizer": dict(step_size=[1, 2, 3]),
+    }.get(name, {})
+    for k, vals in extra.items():
+        if rng.random() < 0.4:
+            cfg[k] = rng.choice(vals)
     if name in POPULATION and rng.random() < 0.7:
         lo = {"GeneticAlgorithmOptimizer": 4, "DifferentialEvolutionOptimizer": 4}.get(name, 1)
         cfg["population"] = rng.choice([lo, lo + 1, 5, 8])
